@@ -22,6 +22,7 @@
 #include <kernel/util/dist.hpp>
 #include <c10_meshlib.hpp>
 
+#include <csignal>
 #include <fstream>
 #include <malloc.h>
 #include <sys/time.h>
@@ -553,6 +554,20 @@ namespace
     }
   }
 
+  /// number of connected components of the cell graph in which cells sharing a facet are adjacent
+  int facet_components(const vm::MeshSpec& ms)
+  {
+    const vm::RefCell& rc = vm::refcell(ms.simplex, ms.dim);
+    std::map<vm::VKey, std::vector<size_t>> fm;
+    for(size_t c = 0; c < ms.cells.size(); ++c) for(auto& lf : rc.faces[ms.dim - 1])
+    { std::vector<Index> v; for(int l : lf) v.push_back(ms.cells[c][size_t(l)]); fm[vm::mkkey(v.data(), int(v.size()))].push_back(c); }
+    std::vector<size_t> par(ms.cells.size()); for(size_t i = 0; i < par.size(); ++i) par[i] = i;
+    auto find = [&](size_t x) { while(par[x] != x) x = par[x] = par[par[x]]; return x; };
+    for(auto& f : fm) for(size_t i = 1; i < f.second.size(); ++i) par[find(f.second[i])] = find(f.second[0]);
+    int n = 0; for(size_t i = 0; i < par.size(); ++i) if(find(i) == i) ++n;
+    return n;
+  }
+
   template<typename Shape_>
   void do_iterative(verif::Ctx& c, const vm::MeshSpec& ms, int pmax, int nseeds)
   {
@@ -571,12 +586,19 @@ namespace
         g_vclock_on = true; g_vclock_s = 0; g_fake_time = seed;
         try { PartiIterative<typename X::MeshType> parti(*mesh, comm, Index(p), budgets[b][0], budgets[b][1]); Adjacency::Graph gg = parti.build_elems_at_rank(); (void)gg; }
         catch(const std::out_of_range&) { _exit(42); }
-      });
+      }, 5);
       if(rc == 1042)
       {
         c.fail("partiiterative: std::out_of_range in constructor (cells not reached by any centre keep an uninitialised patch index)",
           "PartiIterative(mesh, comm, " + std::to_string(p) + ", ...) throws std::out_of_range from _cells_per_patch.at(items[i].patch)");
         c.outcome("partiiterative: dies (out_of_range)");
+        continue;
+      }
+      if(rc == SIGALRM && p < facet_components(ms))
+      {
+        c.fail("partiiterative: does not terminate when there are fewer patches than facet-connected components (centres are re-drawn forever)",
+          "PartiIterative(mesh, comm, " + std::to_string(p) + ", ...) still running after 5 s; mesh has " + std::to_string(facet_components(ms)) + " facet-connected components");
+        c.outcome("partiiterative: hangs");
         continue;
       }
       if(rc != 0) { c.fail("partiiterative.dies", "PartiIterative construction died, run_forked code " + std::to_string(rc)); continue; }
@@ -605,9 +627,9 @@ int main(int argc, char** argv)
   spec.rule = "cases = (mesh, number of ranks, surjective cell->rank assignment, refinement depth) resp. (mesh, parent assignment, child assignments) "
     "for recursive partitions resp. (mesh, p[, budgets, seed]) for the partitioners; every case extracts every patch with the real "
     "RootMeshNode::extract_patch and is non-trivial (>= 1 patch extracted); hash = mesh name, size, assignment strings, depth/seed";
-  spec.bounds_quick = "all surjective assignments: quads 2x2 (aligned and rotated cells) all p, 3x2 p<=3, triangles 4 cells all p / fan of 5 p<=3, hexa 2x2x1 all p, 2x2x2 p<=2, "
+  spec.bounds_quick = "all surjective assignments: quads 2x2 (aligned and rotated cells) all p, two quads touching in one vertex, 3x2 p<=3, triangles 4 cells all p / fan of 5 p<=3, hexa 2x2x1 all p, 2x2x2 p<=2, "
     "6 tetrahedra p<=2, unit_circle_quad_5 p<=3; depth 2 (2D) / 1 (3D); recursive: 2x2 quads and 3x2 quads with 2 parents x (1..2 children each), parents refined 0/1 times; "
-    "Parti2Lvl p=1..64 on 9 meshes; PartiIterative strips 1xN (N<=10), blocks, hexa, triangles, p<=4, 4 budget pairs, seeds 0..15";
+    "Parti2Lvl p=1..64 on 9 meshes; PartiIterative strips 1xN (N<=10), blocks, hexa, triangles, p<=4, 4 budget pairs, seeds 0..15; two quads touching in one vertex p<=2";
   spec.bounds_thorough = "as quick plus 3x2 quads all p, fan all p, 2x2x2 hexa p<=3, tetra p<=3, unit_circle_quad_5 all p, flowbench_s3d_01_hexa_11 p=2, depth 2 in 3D; "
     "recursive also on 2x2x1 hexa; Parti2Lvl p<=256; PartiIterative seeds 0..63, p<=6";
   spec.assumptions = {
@@ -625,6 +647,12 @@ int main(int argc, char** argv)
     {
       vm::MeshSpec q22 = vm::gen_block(2, 2, 2, 1), q32 = vm::gen_block(2, 3, 2, 1);
       do_assignments<Q>(c, q22, 1, 4, 2, "assign");
+      {
+        vm::MeshSpec bt; bt.simplex = false; bt.dim = 2; bt.name = "bowtie";
+        bt.vtx = {{0,0,0},{8,0,0},{0,8,0},{8,8,0},{16,8,0},{8,16,0},{16,16,0}};
+        bt.cells = {{0,1,2,3},{3,4,5,6}};
+        do_assignments<Q>(c, bt, 1, 2, 2, "assign");
+      }
       do_assignments<Q>(c, rotate_cells(q22), 1, 4, 2, "assign");
       do_assignments<Q>(c, q32, 1, th ? 6 : 3, 2, "assign");
       do_assignments<Q>(c, rotate_cells(q32), 2, 2, 1, "assign");
@@ -670,6 +698,13 @@ int main(int argc, char** argv)
       do_iterative<T>(c, vm::gen_simplex_block(2, 2, 2, 1), pm, ns);
       do_iterative<H>(c, vm::gen_block(3, 2, 2, 2), pm, ns);
       do_iterative<H>(c, vm::gen_block(3, 6, 1, 1), pm, ns);
+      // two quads touching in a single vertex: a conforming mesh whose facet graph is disconnected
+      {
+        vm::MeshSpec bt; bt.simplex = false; bt.dim = 2; bt.name = "bowtie";
+        bt.vtx = {{0,0,0},{8,0,0},{0,8,0},{8,8,0},{16,8,0},{8,16,0},{16,16,0}};
+        bt.cells = {{0,1,2,3},{3,4,5,6}};
+        do_iterative<Q>(c, bt, 2, 4);
+      }
     }
   });
 }
